@@ -1034,6 +1034,7 @@ func checkCarriedStructFields(p *Program, r *Report, k *ssa.Function, key string
 // uninterrupted run carries the sentinel value on (an empty store stays empty), while a hot start from the very
 // same value jumps to the derived one. A constant replacement is not judged (R06.8's territory: a clamp).
 func checkEntryReplacement(p *Program, r *Report, models []*Model) {
+	clampIfs := 0
 	r.Rule("R06.10", "a state is not replaced on the way in: for every variable carried around a kernel's time loop whose entry value comes from a state argument on some path, no other path into the loop brings a value that is independent of that state and computed from inputs or parameters (a sentinel test on the state deciding whether the state is believed)")
 	n := 0
 	for _, m := range models {
@@ -1123,6 +1124,12 @@ func checkEntryReplacement(p *Program, r *Report, models []*Model) {
 						if _, isC := a.(*ssa.Const); isC || !derived(a) {
 							continue
 						}
+						// `if s > cap { s = cap }`: the replacement is the very bound the state is compared with — a clamp in
+						// if-form (min/max), which cuts but does not replace; R06.8's territory, not judged here
+						if comparedWithState(k, l, a, stateOf) {
+							clampIfs++
+							continue
+						}
 						bad = true
 						pos := phi.Pos()
 						if ai, ok := a.(ssa.Instruction); ok && ai.Pos().IsValid() {
@@ -1138,4 +1145,160 @@ func checkEntryReplacement(p *Program, r *Report, models []*Model) {
 		}
 	}
 	r.Analysed["R06.10 carried variables with alternative entry values"] = n
+	r.Analysed["R06.10 replacements that are the bound the state is compared with (clamp in if-form, not judged)"] = clampIfs
+}
+
+// comparedWithState: before the loop, an ordering comparison has a on one side and a value derived from a state on the other.
+func comparedWithState(k *ssa.Function, l *Loop, a ssa.Value, stateOf func(ssa.Value) string) bool {
+	found := false
+	eachInstr(k, func(b *ssa.BasicBlock, _ int, ins ssa.Instruction) {
+		bo, ok := ins.(*ssa.BinOp)
+		if !ok || l.Blocks[b] {
+			return
+		}
+		switch bo.Op {
+		case token.LSS, token.GTR, token.LEQ, token.GEQ:
+		default:
+			return
+		}
+		for j, op := range []ssa.Value{bo.X, bo.Y} {
+			other := bo.Y
+			if j == 1 {
+				other = bo.X
+			}
+			if (op == a || sameValue(op, a)) && stateOf(other) != "" {
+				found = true
+			}
+		}
+	})
+	return found
+}
+
+// checkStaleStateReads (R06.11): inside the time loop a state is read through its carried variable. Where a state
+// argument initialises a variable carried round the time loop (the running value of that state), a direct use of
+// the argument inside the loop reads the value the call started with: every timestep of an uninterrupted run then
+// works from the store as it was at the start of the period, while after a split the next call works from the
+// carried-forward value — the result depends on where the period is cut.
+func checkStaleStateReads(p *Program, r *Report, models []*Model) {
+	r.Rule("R06.11", "inside a kernel's time loop a state is read through its carried variable: a state argument that initialises a loop-carried variable (directly) is not used inside the loop itself by anything that influences outputs or returned states — the argument holds the value at the start of the call, not the running one")
+	n := 0
+	for _, m := range models {
+		k := m.Kernel
+		if k == nil || len(m.States) == 0 {
+			continue
+		}
+		key := m.RelPkg + "." + k.Name()
+		states := map[ssa.Value]string{}
+		for i := range m.States {
+			if len(m.Inputs)+i < len(k.Params) {
+				prm := k.Params[len(m.Inputs)+i]
+				if b, ok := prm.Type().Underlying().(*types.Basic); ok && b.Info()&types.IsFloat != 0 {
+					states[prm] = m.States[i]
+				}
+			}
+		}
+		for _, l := range timeLoops(k) {
+			carried := map[ssa.Value]bool{}
+			for _, ins := range l.Header.Instrs {
+				phi, ok := ins.(*ssa.Phi)
+				if !ok {
+					break
+				}
+				for ei, e := range phi.Edges {
+					if ei < len(l.Header.Preds) && !l.Blocks[l.Header.Preds[ei]] {
+						for _, o := range origins(e) {
+							if _, isState := states[o]; isState {
+								carried[o] = true
+							}
+						}
+					}
+				}
+			}
+			// the running value may live in a field of a local struct (`stores := simhydStores{soilMoisture: initial…}`)
+			// that the loop, or a method it calls on the struct, assigns
+			eachInstr(k, func(blk *ssa.BasicBlock, _ int, ins ssa.Instruction) {
+				a, ok := ins.(*ssa.Alloc)
+				if !ok || l.Blocks[blk] {
+					return
+				}
+				if _, isStruct := a.Type().Underlying().(*types.Pointer).Elem().Underlying().(*types.Struct); !isStruct {
+					return
+				}
+				for _, ref := range refs(a) {
+					fa, ok := ref.(*ssa.FieldAddr)
+					if !ok || l.Blocks[fa.Block()] {
+						continue
+					}
+					var init ssa.Value
+					for _, r2 := range refs(fa) {
+						if st, ok := r2.(*ssa.Store); ok && st.Addr == ssa.Value(fa) {
+							for _, o := range origins(st.Val) {
+								if _, isState := states[o]; isState {
+									init = o
+								}
+							}
+						}
+					}
+					if init == nil {
+						continue
+					}
+					written := false
+					for lb := range l.Blocks {
+						for _, i2 := range lb.Instrs {
+							switch x := i2.(type) {
+							case *ssa.Store:
+								if f2, ok := x.Addr.(*ssa.FieldAddr); ok && f2.X == ssa.Value(a) && f2.Field == fa.Field {
+									written = true
+								}
+							case ssa.CallInstruction:
+								h := x.Common().StaticCallee()
+								if h == nil || h.Blocks == nil || !InModule(h) {
+									continue
+								}
+								for ai, arg := range x.Common().Args {
+									if ai < len(h.Params) && stripConv(arg) == ssa.Value(a) && fieldWrittenBy(h, ai, fa.Field, 0) {
+										written = true
+									}
+								}
+							}
+						}
+					}
+					if written {
+						carried[init] = true
+					}
+				}
+			})
+			var prms []ssa.Value
+			for prm := range carried {
+				prms = append(prms, prm)
+			}
+			sort.Slice(prms, func(i, j int) bool { return prms[i].Pos() < prms[j].Pos() })
+			for _, prm := range prms {
+				n++
+				okey := fmt.Sprintf("%s:stale-state:%s", key, states[prm])
+				bad := false
+				for _, ref := range refs(prm) {
+					b := ref.Block()
+					if b == nil || !l.Blocks[b] {
+						continue
+					}
+					if ph, isPhi := ref.(*ssa.Phi); isPhi && b == l.Header {
+						_ = ph
+						continue
+					}
+					v, isVal := ref.(ssa.Value)
+					if isVal && !influences(v) {
+						continue
+					}
+					bad = true
+					r.Fail("R06.11", okey, p.Pos(ref.Pos()), fmt.Sprintf("state argument `%s` is used inside the time loop although a variable carried round the loop holds its running value: each timestep works from the value the call started with, so the result depends on where the simulated period is cut into calls", states[prm]))
+					break
+				}
+				if !bad {
+					r.OK("R06.11", fmt.Sprintf("%s: state `%s` is read inside the time loop only through its carried variable", key, states[prm]))
+				}
+			}
+		}
+	}
+	r.Floor("R06.11", "carried float states", n, 10)
 }
